@@ -2,10 +2,12 @@
 from framework import *
 import ppx
 
-PARTIAL = ("proved: the search rule (C10_resolve, C10_first_include_path), File/ReadUtf8 for missing/unreadable files and that "
-           "with ignore_include nothing of the file system is consulted at any macro depth (C10_ignore_reads_nothing); the "
-           "splice itself (defines in and out, nesting) and the same-line rule are tied by correspondence of the evaluator "
-           "model and by the reference expectations of the generated include graphs, not by a theorem")
+PARTIAL = ("proved: the search rule (C10_resolve, C10_first_include_path), File/ReadUtf8 for missing/unreadable files, that with ignore_include "
+           "nothing of the file system is consulted at any macro depth (C10_ignore_reads_nothing), the splice of a literal include "
+           "(C10_include_splices, C10_include_error_wrapped) and the same-line rule step by step (C10_include_behind_an_item_rejected, "
+           "C10_text_/C10_directive_behind_an_include_rejected, C10_blank_behind_an_include_accepted, C10_item_line_recorded, "
+           "C10_item_end_line); that whole runs compose these steps as the property reads them (the line numbers are the "
+           "parser's) is tied by correspondence of the evaluator model and by the reference expectations of the generated include graphs")
 
 DIRS = ["i0", "i1", "i2"]
 
@@ -139,6 +141,12 @@ def check(ctx):
     pcs.append(ppx.PC({"top.sv": '`define P 1\n`include "d.svh"\n`Q `ifdef P p_still `endif\n`include "d.svh"\n',
                        "d.svh": "`ifdef P saw_p `endif\n`define Q from_d\n`undef P\n"}, tag="flow"))
     exp.append(("ok", ["`define", "P", "1", "saw_p", "`define", "Q", "from_d", "`undef", "P", "from_d", "`define", "Q", "from_d", "`undef", "P"]))
+    # a file of zero bytes: nothing comes out, everything in force stays in force (also the caller's names)
+    pcs.append(ppx.PC({"top.sv": '`define P 1\n`include "empty.svh"\n`ifdef P\nstill_p `P\n`endif\n`ifdef PRE\nstill_pre\n`endif\n', "empty.svh": ""},
+                      predefs=[("PRE", None)], tag="flow"))
+    exp.append(("ok", ["`define", "P", "1", "still_p", "1", "still_pre"]))
+    pcs.append(ppx.PC({"top.sv": 'a\n`include "m.svh"\n`Q z\n', "m.svh": '`define Q from_m\n`include "empty.svh"\n`include "nl.svh"\n', "empty.svh": "", "nl.svh": "\n"}, tag="flow"))
+    exp.append(("ok", ["a", "`define", "Q", "from_m", "from_m", "z"]))
     # faults
     pcs.append(ppx.PC({"top.sv": 'a\n`include "bad.svh"\n'}, bad=["bad.svh"], tag="fault")); exp.append(("err", 1, "ReadUtf8", "bad.svh"))
     pcs.append(ppx.PC({"top.sv": 'a\n`include "m.svh"\n', "m.svh": '`include "bad.svh"\n'}, bad=["bad.svh"], tag="fault")); exp.append(("err", 2, "ReadUtf8", "bad.svh"))
